@@ -163,28 +163,107 @@ func main() {
 		}
 		return "[" + strings.Join(xs, "; ") + "]"
 	}
-	type sch struct {
-		name  string
-		order []cmd.VerifRead
+	// The read order of conduct's four shutdown stages, as a function of what the
+	// selects choose (oracle ch, one element per select) and of the values the
+	// components deliver.  This mirrors pkg/cmd/conductor.go by hand, exactly as
+	// Model/Verdict.v (stage, stage3, conduct_run) does; the two are compared on
+	// every case, and the resulting order is run through the real combineErrors /
+	// ignCancel / errors.Is (hook VerifFunnel).
+	comps := []string{"p", "s", "a", "c"}
+	compCoq := map[string]string{"p": "CP", "s": "CS", "a": "CA", "c": "CC"}
+	type shut struct {
+		consumed  map[string]bool
+		reads     []cmd.VerifRead
+		cancelled []string
 	}
-	d := func(c string) cmd.VerifRead { return cmd.VerifRead{Comp: c} }
-	ig := func(c string) cmd.VerifRead { return cmd.VerifRead{Comp: c, IgnCancel: true} }
-	scheds := []sch{
-		{"SchP_S_A", []cmd.VerifRead{d("p"), d("s"), d("a"), ig("c")}},
-		{"SchP_S_C", []cmd.VerifRead{d("p"), d("s"), d("c"), ig("a")}},
-		{"SchP_A", []cmd.VerifRead{d("p"), d("a"), ig("s"), ig("c")}},
-		{"SchP_C", []cmd.VerifRead{d("p"), d("c"), ig("s"), ig("a")}},
-		{"SchS", []cmd.VerifRead{d("s"), ig("p"), ig("a"), ig("c")}},
-		{"SchA", []cmd.VerifRead{d("a"), ig("p"), ig("s"), ig("c")}},
-		{"SchC", []cmd.VerifRead{d("c"), ig("p"), ig("s"), ig("a")}},
+	read := func(s *shut, comp map[string][]string, x string, ig bool) []string {
+		if s.consumed[x] {
+			return nil // closed channel
+		}
+		s.consumed[x] = true
+		s.reads = append(s.reads, cmd.VerifRead{Comp: x, IgnCancel: ig})
+		return comp[x]
+	}
+	interrupt := func(s *shut, comp map[string][]string, list []string) {
+		for _, x := range list {
+			if !s.consumed[x] {
+				s.cancelled = append(s.cancelled, x)
+			}
+			read(s, comp, x, true)
+		}
+	}
+	has := func(l []string, x string) bool {
+		for _, y := range l {
+			if y == x {
+				return true
+			}
+		}
+		return false
+	}
+	remove := func(l []string, x string) []string {
+		var r []string
+		for _, y := range l {
+			if y != x {
+				r = append(r, y)
+			}
+		}
+		return r
+	}
+	choose := func(ch *[]string, own string, watched []string) string {
+		if len(*ch) == 0 {
+			return own
+		}
+		c := (*ch)[0]
+		*ch = (*ch)[1:]
+		if has(watched, c) {
+			return c
+		}
+		return own
+	}
+	stage := func(s *shut, comp map[string][]string, own string, cancelList, watched []string, ch *[]string) []string {
+		for {
+			x := choose(ch, own, watched)
+			if x == own {
+				read(s, comp, own, false)
+				return watched
+			}
+			if v := read(s, comp, x, false); len(v) == 0 {
+				// a later stage ended without error: no longer watched, keep waiting
+				watched = remove(watched, x)
+				continue
+			}
+			interrupt(s, comp, cancelList)
+			return watched
+		}
+	}
+	conductReads := func(comp map[string][]string, ch []string) *shut {
+		s := &shut{consumed: map[string]bool{}}
+		w := stage(s, comp, "p", []string{"p", "s", "a", "c"}, []string{"s", "a", "c"}, &ch)
+		stage(s, comp, "s", []string{"s", "a", "c"}, remove(w, "s"), &ch)
+		if x := choose(&ch, "a", []string{"c"}); x == "a" {
+			read(s, comp, "a", false)
+		} else {
+			read(s, comp, "c", false)
+			interrupt(s, comp, []string{"a", "c"})
+		}
+		read(s, comp, "c", true)
+		return s
 	}
 	var fitems []string
-	nf := 60
+	nf := 400
 	if *tier == "thorough" {
-		nf = 1500
+		nf = 10000
 	}
 	for i := 0; i < nf; i++ {
 		comp := map[string][]string{"p": genErr(), "s": genErr(), "a": genErr(), "c": genErr()}
+		if rng.Intn(2) == 0 {
+			// mostly failure-free components: the orders in which they end matter most
+			for _, x := range comps {
+				if rng.Intn(3) != 0 {
+					comp[x] = nil
+				}
+			}
+		}
 		verdict, cleanup := []string(nil), []string(nil)
 		if rng.Intn(3) == 0 {
 			verdict = []string{"audit"}
@@ -192,11 +271,28 @@ func main() {
 		if rng.Intn(5) == 0 {
 			cleanup = []string{"real"}
 		}
-		for _, sc := range scheds {
-			nonNil, _ := cmd.VerifFunnel(comp, sc.order, verdict, cleanup)
-			fitems = append(fitems, fmt.Sprintf("(%s, %s, %s, %s, %s, %s, %s, %s)", sc.name, coqErr(comp["p"]), coqErr(comp["s"]),
-				coqErr(comp["a"]), coqErr(comp["c"]), coqErr(verdict), coqErr(cleanup), vh.Bool(nonNil)))
+		var ch []string
+		for n := rng.Intn(8); n > 0; n-- {
+			ch = append(ch, comps[rng.Intn(4)])
 		}
+		if i < 64 {
+			// every oracle of length 3 once
+			ch = []string{comps[i%4], comps[(i/4)%4], comps[(i/16)%4]}
+		}
+		s := conductReads(comp, ch)
+		nonNil, _ := cmd.VerifFunnel(comp, s.reads, verdict, cleanup)
+		var chC, rdC, cnC []string
+		for _, c := range ch {
+			chC = append(chC, compCoq[c])
+		}
+		for _, r := range s.reads {
+			rdC = append(rdC, fmt.Sprintf("(%s, %s)", compCoq[r.Comp], vh.Bool(r.IgnCancel)))
+		}
+		for _, c := range s.cancelled {
+			cnC = append(cnC, compCoq[c])
+		}
+		fitems = append(fitems, fmt.Sprintf("([%s], %s, %s, %s, %s, %s, %s, %s, [%s], [%s])", strings.Join(chC, "; "), coqErr(comp["p"]), coqErr(comp["s"]),
+			coqErr(comp["a"]), coqErr(comp["c"]), coqErr(verdict), coqErr(cleanup), vh.Bool(nonNil), strings.Join(rdC, "; "), strings.Join(cnC, "; ")))
 	}
 	var citems []string
 	nc := 200
